@@ -156,6 +156,7 @@ func checkC02(c *Ctx) {
 	c.checkPins(f, "C02.c", c02Pins)
 	// (h)
 	c.checkPins(f, "C02.h", exprTypePins)
+	c.checkPins(f, "C02.h", irFactoryPins)
 	// (d)
 	if nf, fn := f.NF("parseLetFuncDef"); fn != nil {
 		const P = "parseParams(psNext(psPushScope(psConsume(var:New_TokenType_LET, p1))))"
